@@ -257,8 +257,10 @@ deriving DecidableEq, Repr
 /-! ### `process_a_association_rq` -/
 
 /-- which reject reason a protocol-version mismatch produces:
-`shipped` = the code as found (`ServiceUser(NoReasonGiven)`),
-`repaired` = `ServiceProviderASCE(ProtocolVersionNotSupported)`. -/
+`shipped` = the code as originally found (`ServiceUser(NoReasonGiven)`),
+`repaired` = `ServiceProviderASCE(ProtocolVersionNotSupported)` (the code after the `fix:` commit;
+this is the variant the correspondence run compares with). The same switch selects the
+requestor's behaviour beyond 128 presentation contexts in `AssocClient.lean`. -/
 inductive Variant | shipped | repaired
 deriving DecidableEq, Repr
 
